@@ -541,7 +541,7 @@ Print corr_bad. Print prop_bad. Print enum_bad. Print static_agree. Print static
     if res["corr_bad"]:
         broken.append("correspondence: the generic table model (Flatbuf.read/build on the generated slot maps) disagrees with "
                       "Builder+accessors on flat cases %s, e.g. %s" % (res["corr_bad"][:10], cases[res["corr_bad"][0]]))
-    if broken and not chk.violations and not chk.known_hits:
+    if broken and not chk.violations:
         chk.fail("broken.txt", "\n\n".join(broken), no_input=True)
     chk.assumptions += ["translator tools/gens/schema.py + alias table schema_aliases.json (C names <-> fbs names)",
                         "the C agent is represented by its header enums and the call kinds in axiom/cmd_*_transmit.c; "
